@@ -70,8 +70,9 @@ class SrtParagraph:
 
   def normalize_eol(self):
     """Remove line breaks at the beginning and end of the paragraph, and replace
-    line break sequences with a single line break"""
-    self._text = SrtParagraph._EOL_SEQ_RE.sub("\n", self._text).strip("\n\r")
+    line break sequences with a single line break. Lines that contain only white space
+    are removed too, since SRT readers take them for the end of the subtitle."""
+    self._text = "\n".join(line for line in self._text.split("\n") if line.strip() != "")
 
   def append_text(self, text: str):
     """Appends text to the paragraph"""
